@@ -285,6 +285,79 @@ def run_program(prog):
         shutil.rmtree(root, ignore_errors=True)
 
 
+# ---------------------------------------------------------------------------
+# two targets at once: every target has a temporary output file of its own
+
+PAIRS = [("foo.a", "foo.b"), ("foo", "foo.x"), ("a.b.c", "a.b.d"), ("foo.a", "bar.a"), ("x.redo", "x")]
+
+
+def pair_programs(tier):
+    out = []
+    for pair in PAIRS:
+        for mode in ("nested", "serial", "j2"):
+            for prior in ("absent", "generated"):
+                out.append({"pair": list(pair), "mode": mode, "prior": prior})
+    return out
+
+
+def run_pair(prog):
+    """Two targets of one directory built by one command -- one from inside the other's script, one after the other, or both
+    at the same time (the scripts wait for each other's first half, so their executions overlap for certain): each becomes
+    exactly what its own script wrote to its own $3, and no temporary file is left."""
+    (n1, n2), mode, prior = prog["pair"], prog["mode"], prog["prior"]
+    root = _W["root"] / f"q_{os.getpid()}_{time.monotonic_ns()}"
+    p = root / "p"
+    home = root / "home"
+    p.mkdir(parents=True)
+    home.mkdir()
+    res = {"program": prog, "violations": [], "observations": []}
+    try:
+        env = common.base_env(_W["bindir"], home)
+        if prior == "generated":
+            for n in (n1, n2):
+                (p / (n + ".do")).write_text('echo "old %s"\n' % n)
+            r = e3.run_session(["redo", "--no-log", n1, n2], p, env, root, "prior", timeout=60)
+            if r["rc"] != 0:
+                raise MachineryError("could not produce the prior generated pair: " + r["err"][-300:])
+        wait = 'i=0; while [ ! -e "%s" ] && [ $i -lt 200 ]; do sleep 0.05; i=$((i+1)); done'
+        if mode == "nested":
+            (p / (n1 + ".do")).write_text('echo "first half of $1" >> "$3"\nredo-ifchange "%s" || exit 9\necho "second half of $1" >> "$3"\n' % n2)
+            (p / (n2 + ".do")).write_text('echo "first half of $1" >> "$3"\necho "second half of $1" >> "$3"\n')
+            argv = ["redo", "--no-log", n1]
+        else:
+            for me, other in ((n1, n2), (n2, n1)):
+                body = 'echo "first half of $1" >> "$3"\n'
+                if mode == "j2":
+                    body += ': > "started.$1"\n' + (wait % ("started." + other)) + "\n"
+                body += 'echo "second half of $1" >> "$3"\n'
+                (p / (me + ".do")).write_text(body)
+            argv = ["redo", "--no-log"] + (["-j2"] if mode == "j2" else []) + [n1, n2]
+        r = e3.run_session(argv, p, env, root, "pair", timeout=90)
+        res["rc"], res["stderr"] = r["rc"], r["err"][-800:]
+        V = res["violations"]
+        if r["watchdog"]:
+            V.append(("pair-command-hung", "-", None, ""))
+        elif r["rc"] != 0:
+            V.append(("pair-command-failed", "-", None, r["err"][-300:]))
+        for n in (n1, n2):
+            want = "first half of %s\nsecond half of %s\n" % (n, n)
+            try:
+                got = (p / n).read_text()
+            except OSError:
+                got = None
+            if got != want:
+                V.append(("pair-target-wrong", "-", "target", "%s: want %r, got %r" % (n, want, got)))
+        tmps = e3.leftover_tmps(p)
+        if tmps:
+            V.append(("tmp-left-behind", "-", "tmp", str(tmps)))
+        res["final"] = {n: ((p / n).read_text() if (p / n).is_file() else None) for n in (n1, n2)}
+        res["redo_mutations_of_target"] = []
+        res["prior_state"] = prior
+        return res
+    finally:
+        shutil.rmtree(root, ignore_errors=True)
+
+
 def _rle(obs):
     out = []
     for (lid, idx, call, pc, pc2, st) in obs:
@@ -307,6 +380,7 @@ def main(tier):
     try:
         with ProcessPoolExecutor(max_workers=min(16, common.NCPU), initializer=_init, initargs=(str(bindir), str(root))) as pool:
             results = list(pool.map(run_program, progs))
+            pairs = list(pool.map(run_pair, pair_programs(tier)))
     finally:
         common.cleanup_scratch()
     evaluations = 0
@@ -328,6 +402,15 @@ def main(tier):
                            {"engine": "E3-observe", "program": pr, "detail": detail, "rc": r["rc"], "stderr": r["stderr"],
                             "final": r["final"], "redo_mutations_of_target": r["redo_mutations_of_target"],
                             "target_states_run_length": _rle(r["observations"])})
+    for r in pairs:
+        pr = r["program"]
+        evaluations += 1
+        nontrivial.add(("pair", tuple(pr["pair"]), pr["mode"], pr["prior"]))
+        for (kind, call, pc, detail) in r["violations"]:
+            nviol += 1
+            verdict.report({"kind": kind, "pair": "+".join(pr["pair"]), "mode": pr["mode"], "prior": pr["prior"]},
+                           {"engine": "E1", "program": pr, "detail": detail, "rc": r.get("rc"), "stderr": r.get("stderr"),
+                            "final": r.get("final")})
     for want in (("o=data,f=none,w=none,e=0", 70000, "generated"), ("o=data,f=none,w=none,e=kill9", 70000, "generated"),
                  ("o=none,f=none,w=none,e=0", 1, "generated"), ("o=data,f=empty,w=none,e=0", 70000, "absent")):
         for r in results:
@@ -351,6 +434,8 @@ def main(tier):
         "samples": samples,
         "exhaustive": True,
         "programs": len(results),
+        "pair_programs": {"pairs": PAIRS, "modes": ["nested", "serial", "j2 (overlap forced by the scripts)"], "priors": ["absent", "generated"],
+                          "count": len(pairs), "oracle": "each target is exactly what its own script wrote to its own $3; exit 0; no *.redo.tmp left"},
         "sizes": sorted({p["size"] for p in progs}),
         "behaviours": list(BEHAVIOURS),
         "target_states_observed": sorted(states_seen),
@@ -379,9 +464,15 @@ def replay(path):
     root.mkdir(parents=True, exist_ok=True)
     _init(str(bindir), str(root))
     try:
-        r = run_program(doc["program"])
+        r = run_pair(doc["program"]) if "pair" in doc["program"] else run_program(doc["program"])
     finally:
         common.cleanup_scratch()
+    if "pair" in doc["program"]:
+        print(json.dumps(r, indent=1))
+        if r["violations"]:
+            print("VIOLATION-REPLAYED", r["violations"])
+            return 1
+        return 0
     print(json.dumps({"program": r["program"], "rc": r["rc"], "stderr": r["stderr"], "final": r["final"],
                       "redo_mutations_of_target": r["redo_mutations_of_target"],
                       "target_states_run_length": _rle(r["observations"]), "violations": r["violations"]}, indent=1))
